@@ -780,8 +780,8 @@ class Renderer:
         return ''.join(self.out)
 
 
-def render_spaced(ast, rng):
-    seps = ['', ' ', '  ', '\t', '\n', ' \n', '\n ', ' \n\t', '\r\n', ' \r\n', '\r']
+def render_spaced(ast, rng, seps=None):
+    seps = seps or ['', ' ', '  ', '\t', '\n', ' \n', '\n ', ' \n\t', '\r\n', ' \r\n', '\r']
     r = Renderer(lambda: rng.choice(seps))
     r.seq(ast)
     return r.text()
